@@ -62,7 +62,8 @@ CLAIMED = {
              "included) and must predict what the reopened store serves for every key; an independent scanner (Python) "
              "re-reads the layout; end-to-end streams with a must-hit oracle. Index page byte by byte (Disk/BlobIndex.v): "
              "c07_index_page_roundtrip - BlobIndexReader::read of what BlobIndex::write/seal produced returns exactly the "
-             "entries written, whatever the rest of the reused page buffer holds; the extracted page writer/reader are compared "
+             "entries written, whatever the rest of the reused page buffer holds, and c07_scan_exact_bytes composes it with scan "
+             "exactness (a block recovered from its bytes yields exactly the entries written); the extracted page writer/reader are compared "
              "byte for byte with the real ones, also on pages with one byte changed.",
         ref="4/C07", tech="Coq proof (splitter invariant, chain invariant, scan exactness) + extracted-model correspondence (splitter and scanner) + oracles",
         note="drives Splitter::split and Buffer::push directly (hook H1); entry data is not part of the scan model (a data "
